@@ -7,7 +7,8 @@
    LL(1) parser), [doc_* bs] is the intended document: rows grouped by runs of equal fingerprint. *)
 From Coq Require Import List NArith ZArith Bool Ascii String.
 From Qryn Require Import model.GoFloat model.JsonStream proofs.JsonStreamProofs proofs.JsonSpliceProofs
-  proofs.GoFloatProofs proofs.JsonNumProofs proofs.JsonSeriesProofs proofs.GoMarshalProofs proofs.GoFloatReadProofs proofs.GoFloatRoundProofs.
+  proofs.GoFloatProofs proofs.JsonNumProofs proofs.JsonSeriesProofs proofs.GoMarshalProofs proofs.GoFloatReadProofs proofs.GoFloatRoundProofs
+  proofs.GoFloatExactProofs proofs.GoFloatShortestProofs proofs.GoFloatMsProofs model.RespOptimizer proofs.RespOptimizerProofs.
 Import ListNotations.
 Open Scope string_scope.
 Open Scope list_scope.
@@ -485,3 +486,121 @@ Proof. exact rne_half_ulp. Qed.
 Print Assumptions float_quotient_correctly_rounded.
 Example rne_met : rne 1700000000123456789 1 = (6640625000482253, 8)%Z /\ rne 1 1000 = (4611686018427388, -62)%Z.
 Proof. split; vm_compute; reflexivity. Qed.
+
+(* ------------------------------------------------------------------------------------------ *)
+(* "rendered without loss", matrix timestamps: fmt.Sprintf("%f", float64(TimestampNS)/1e9). Both float operations round
+   (the conversion from 2^53 ns on, the division always), and still: a microsecond-aligned TimestampNS in [0, 2^61)
+   (until the year 2043) is printed as exactly that many microseconds - for every such timestamp, not per case *)
+Theorem matrix_timestamp_microseconds_exact : forall u, (0 <= u)%Z -> (1000 * u < 2 ^ 61)%Z ->
+  read_fixed (f6_text (ts_seconds (1000 * u))) = Some (false, u, 6%nat).
+Proof. exact f6_timestamp_exact. Qed.
+Print Assumptions matrix_timestamp_microseconds_exact.
+Example matrix_timestamp_met : (0 <= 1727740800654321)%Z /\ (1000 * 1727740800654321 < 2 ^ 61)%Z /\
+  f6_text (ts_seconds (1000 * 1727740800654321)) = "1727740800.654321" /\
+  fl_of_int (1000 * 1727740800654321) <> FFin false (1000 * 1727740800654321) 0.   (* beyond 2^53: the conversion itself rounds *)
+Proof. split; [|split; [|split]]; vm_compute; congruence. Qed.
+
+(* the oracle evaluated on every generated matrix row can never fire *)
+Theorem matrix_timestamp_oracle_holds : forall ts, ts_us_exact ts = true.
+Proof. exact ts_us_exact_holds. Qed.
+Print Assumptions matrix_timestamp_oracle_holds.
+
+(* and for EVERY TimestampNS in [0, 2^61), aligned or not: the text is within 866 ns of the timestamp (half a microsecond of
+   the format plus 0.366 us of the two float roundings) *)
+Theorem matrix_timestamp_error_bound : forall ts, (0 <= ts < 2 ^ 61)%Z ->
+  exists n, read_fixed (f6_text (ts_seconds ts)) = Some (false, n, 6%nat) /\ (Z.abs (n * 1000 - ts) <= 866)%Z.
+Proof. exact f6_timestamp_error_bound. Qed.
+Print Assumptions matrix_timestamp_error_bound.
+
+(* Prometheus timestamps: WriteFloat64(float64(T)/1000) of an int64 millisecond timestamp. Below 2^43 seconds (the year 280 700)
+   two neighbouring float64 values are less than a millisecond apart and the shortest decimal of the quotient is T/1000 itself:
+   the text denotes exactly T milliseconds, for every such T *)
+Theorem prom_timestamp_milliseconds_exact : forall t, (0 <= t < 2 ^ 43 * 1000)%Z ->
+  exists n k, read_fixed (wfloat64_text (ms_seconds t)) = Some (false, n, k) /\ (n * 1000 = t * 10 ^ Z.of_nat k)%Z.
+Proof. exact ms_timestamp_exact. Qed.
+Print Assumptions prom_timestamp_milliseconds_exact.
+Example prom_timestamp_met : (0 <= 1727740800123 < 2 ^ 43 * 1000)%Z /\ wfloat64_text (ms_seconds 1727740800123) = "1727740800.123".
+Proof. split; [split|]; vm_compute; congruence. Qed.
+
+(* the oracle evaluated on every generated Prometheus point can never fire *)
+Theorem prom_timestamp_oracle_holds : forall t, ms_exact t = true.
+Proof. exact ms_exact_holds. Qed.
+Print Assumptions prom_timestamp_oracle_holds.
+
+(* the bound claimed earlier (2^53 ms) is false: from 2^43 s on float64 values are 1/512 s apart and
+   8796093022208001 ms is printed as 8796093022208.002 (inherent to seconds-as-float64, the format of the Prometheus API) *)
+Theorem prom_timestamp_exact_below_2p53_refuted : exists t, (0 <= t < 2 ^ 53)%Z /\ ms_exact_2p53 t = false.
+Proof. exact ms_exact_2p53_refuted. Qed.
+Print Assumptions prom_timestamp_exact_below_2p53_refuted.
+
+(* strconv's shortest formatting (every sample value, every Prometheus timestamp): the fall-back of [shortest] (the exact
+   expansion, taken when the 17-position search finds nothing or its result fails the final interval test) is unreachable:
+   for every finite non-zero float64 bit pattern the search succeeds, its stripped result lies in the rounding interval, and
+   that is what [shortest] returns *)
+Theorem shortest_fallback_unreachable : forall b neg m e, fl_of_bits b = FFin neg m e ->
+  let iv := interval m e in
+  let P := (dec_exp (iv_xn iv) (iv_den iv) - 1)%Z in
+  exists D P',
+    search 17 (iv_incl iv) P (iv_xn iv * 10 ^ Z.max (- P) 0)%Z (iv_ln iv * 10 ^ Z.max (- P) 0)%Z
+           (iv_un iv * 10 ^ Z.max (- P) 0)%Z (10 ^ Z.max P 0 * iv_den iv)%Z = Some (D, P')
+    /\ in_interval iv (fst (strip_zeros 20 D P')) (snd (strip_zeros 20 D P')) = true
+    /\ shortest m e = strip_zeros 20 D P'.
+Proof. exact shortest_no_fallback_bits. Qed.
+Print Assumptions shortest_fallback_unreachable.
+Example shortest_met : fl_of_bits 4591870180066957722 = FFin false 7205759403792794 (-56) /\ shortest 7205759403792794 (-56) = (1, -1)%Z /\
+  fl_of_bits 1 = FFin false 1 (-1074) /\ shortest 1 (-1074) = (5, -324)%Z.
+Proof. repeat split; vm_compute; reflexivity. Qed.
+
+(* ------------------------------------------------------------------------------------------ *)
+(* The stage in front of exportStreamsValue: internal_planner.ResponseOptimizerPlanner regroups the rows by fingerprint in
+   windows of (at least) 3000 rows and hands the encoder one channel batch per fingerprint and window, in the order the Go map
+   is visited. [optimize thr os bs]: threshold, observed visiting order (any), the channel batches it receives.
+   For EVERY threshold, every split of the rows into channel batches and every visiting order: *)
+
+(* every row is handed on exactly once (as a multiset), and the rows of one stream keep their order *)
+Theorem optimizer_rows_once : forall thr os bs, Permutation.Permutation (rows_streams (optimize thr os bs)) (rows_streams bs).
+Proof. exact optimize_live_rows_once. Qed.
+Print Assumptions optimizer_rows_once.
+
+Theorem optimizer_rows_per_stream_in_order : forall thr os bs f,
+  filter (fp_is f) (rows_streams (optimize thr os bs)) = filter (fp_is f) (rows_streams bs).
+Proof. exact optimize_live_rows_per_stream. Qed.
+Print Assumptions optimizer_rows_per_stream_in_order.
+
+(* every batch it sends is non-empty and carries one fingerprint *)
+Theorem optimizer_batches_one_stream : forall thr os bs b, In b (optimize thr os bs) ->
+  b <> [] /\ exists k, forall e, In e b -> e_fp e = k.
+Proof. exact optimize_batches_one_stream. Qed.
+Print Assumptions optimizer_batches_one_stream.
+
+(* the response of the pipeline is one document, the intended document of the batches handed on ... *)
+Theorem doc_wellformed_streams_optimized : forall thr os bs, forallb (forallb no_fail) bs = true ->
+  parse_bytes (render (enc_streams cur_hdr (optimize thr os bs))) = Some (doc_streams (optimize thr os bs)).
+Proof. exact optimized_streams_bytes. Qed.
+Print Assumptions doc_wellformed_streams_optimized.
+
+(* ... whose rows, read back in document order, are the rows handed on (= the rows received, see above) *)
+Theorem doc_content_rows_optimized : forall thr os bs,
+  (forall a b, In a (List.concat bs) -> In b (List.concat bs) -> e_fp a = e_fp b -> e_lbls a = e_lbls b) ->
+  rows_of_result (map (series_doc "stream" log_value_doc) (group (rows_streams (optimize thr os bs)))) =
+  map (row_doc log_value_doc) (rows_streams (optimize thr os bs)).
+Proof. exact optimized_document_rows. Qed.
+Print Assumptions doc_content_rows_optimized.
+
+(* exactly one object per stream as long as no window is closed before the input ends (fewer rows than the threshold),
+   whatever the batching and the visiting order *)
+Theorem one_object_per_stream_optimized_partial : forall thr os bs, (total_rows bs < thr)%Z ->
+  NoDup (heads (rows_streams (optimize thr os bs))).
+Proof. exact optimize_one_object_per_stream. Qed.
+Print Assumptions one_object_per_stream_optimized_partial.
+Example optimized_guard_met : (total_rows ex_bs < flush_threshold)%Z /\
+  map (map e_ts) (optimize flush_threshold [22; 11; 0]%N ex_bs) = [[3; 5; 6]; [1; 2; 4; 7]; [0]]%Z.
+Proof. split; vm_compute; reflexivity. Qed.
+
+(* at the threshold of the code the unconditional statement is false, and no visiting order saves it: 3000 rows of two streams
+   in the first channel batch close a window, both streams have a row after it; one of them heads two objects
+   (finding optimizer-window-splits-stream) *)
+Theorem one_object_per_stream_optimized_refuted : exists bs, forall os,
+  ~ NoDup (heads (rows_streams (optimize flush_threshold os bs))).
+Proof. eexists. exact optimize_splits_streams_at_3000. Qed.
+Print Assumptions one_object_per_stream_optimized_refuted.
